@@ -1,1 +1,306 @@
-//! Verification doors: tunnel (cfg(trusttunnel_verif) only)
+//! Verification doors: `Tunnel` + `HttpDownstream` + the real HTTP/1.1 / HTTP/2 codecs over an
+//! arbitrary transport, with a forwarder the harness scripts (cfg(trusttunnel_verif) only)
+
+use crate::core::Core;
+use crate::forwarder::{
+    DatagramMultiplexerAuthenticator, Forwarder, IcmpMultiplexer, TcpConnectionMeta, TcpConnector,
+    UdpDatagramPipeShared, UdpDatagramReadStatus, UdpMultiplexer, UdpMultiplexerMeta,
+};
+use crate::net_utils::TcpDestination;
+use crate::verif::pipe::{SinkIn, SourceIn, VSink, VSource};
+use crate::{
+    authentication, datagram_pipe, downstream, forwarder, log_utils, net_utils, pipe,
+    tls_demultiplexer, tunnel,
+};
+use async_trait::async_trait;
+use std::io;
+use std::net::{IpAddr, SocketAddr};
+use std::pin::Pin;
+use std::sync::{Arc, Mutex};
+use std::task::{Context as TaskContext, Poll};
+use tokio::io::{AsyncRead, AsyncWrite, ReadBuf};
+
+/// Transport wrapper giving an in-memory stream a peer address
+pub struct VIo<T> {
+    pub inner: T,
+    pub peer: SocketAddr,
+}
+
+impl<T> net_utils::PeerAddr for VIo<T> {
+    fn peer_addr(&self) -> io::Result<SocketAddr> {
+        Ok(self.peer)
+    }
+}
+
+impl<T: AsyncRead + Unpin> AsyncRead for VIo<T> {
+    fn poll_read(
+        mut self: Pin<&mut Self>,
+        cx: &mut TaskContext<'_>,
+        buf: &mut ReadBuf<'_>,
+    ) -> Poll<io::Result<()>> {
+        Pin::new(&mut self.inner).poll_read(cx, buf)
+    }
+}
+
+impl<T: AsyncWrite + Unpin> AsyncWrite for VIo<T> {
+    fn poll_write(
+        mut self: Pin<&mut Self>,
+        cx: &mut TaskContext<'_>,
+        buf: &[u8],
+    ) -> Poll<io::Result<usize>> {
+        Pin::new(&mut self.inner).poll_write(cx, buf)
+    }
+
+    fn poll_flush(mut self: Pin<&mut Self>, cx: &mut TaskContext<'_>) -> Poll<io::Result<()>> {
+        Pin::new(&mut self.inner).poll_flush(cx)
+    }
+
+    fn poll_shutdown(mut self: Pin<&mut Self>, cx: &mut TaskContext<'_>) -> Poll<io::Result<()>> {
+        Pin::new(&mut self.inner).poll_shutdown(cx)
+    }
+}
+
+#[derive(Debug, Clone, Copy, PartialEq, Eq)]
+pub enum VProto {
+    Http1,
+    Http2,
+}
+
+/// Mirror of `tunnel::ConnectionError`
+#[derive(Debug)]
+pub enum VConnError {
+    Io(io::Error),
+    Authentication(String),
+    Timeout,
+    HostUnreachable,
+    DnsNonroutable,
+    DnsLoopback,
+    Other(String),
+}
+
+impl From<VConnError> for tunnel::ConnectionError {
+    fn from(e: VConnError) -> Self {
+        match e {
+            VConnError::Io(x) => tunnel::ConnectionError::Io(x),
+            VConnError::Authentication(x) => tunnel::ConnectionError::Authentication(x),
+            VConnError::Timeout => tunnel::ConnectionError::Timeout,
+            VConnError::HostUnreachable => tunnel::ConnectionError::HostUnreachable,
+            VConnError::DnsNonroutable => tunnel::ConnectionError::DnsNonroutable,
+            VConnError::DnsLoopback => tunnel::ConnectionError::DnsLoopback,
+            VConnError::Other(x) => tunnel::ConnectionError::Other(x),
+        }
+    }
+}
+
+/// Plain view of what the tunnel asked the forwarder to connect to
+#[derive(Debug, Clone)]
+pub struct VTcpMeta {
+    pub client_address: IpAddr,
+    /// `Some(addr)` for a literal destination
+    pub address: Option<SocketAddr>,
+    /// `Some((host, port))` for a host name
+    pub host: Option<(String, u16)>,
+    /// kind ("sni" / "basic") and value of the authentication source handed to the forwarder
+    pub auth: Option<(String, String)>,
+    pub tls_domain: String,
+    pub user_agent: Option<String>,
+}
+
+pub enum VConnect {
+    /// the connection is established: the peer's ends of the pipe
+    Ok(Box<dyn VSource>, Box<dyn VSink>),
+    Err(VConnError),
+    /// the attempt never completes
+    Never,
+}
+
+pub enum VMux {
+    /// a multiplexer that stays silent
+    Silent,
+    /// ICMP only: forwarding is not configured (`Ok(None)`)
+    NotConfigured,
+    Err(io::Error),
+}
+
+/// The forwarder the harness scripts. Every call is an observable "egress" event.
+pub trait VForwarder: Send + Sync {
+    fn tcp_connect(&self, meta: VTcpMeta) -> VConnect;
+    fn check_auth(&self, client: IpAddr, tls_domain: &str, auth: (String, String)) -> Result<(), VConnError>;
+    fn udp_mux(&self, client: IpAddr) -> VMux;
+    fn icmp_mux(&self) -> VMux;
+}
+
+static OVERRIDE: Mutex<Option<Arc<dyn VForwarder>>> = Mutex::new(None);
+
+/// Install (or clear) the forwarder every tunnel created from now on will use
+pub fn set_forwarder(f: Option<Arc<dyn VForwarder>>) {
+    *OVERRIDE.lock().unwrap_or_else(|e| e.into_inner()) = f;
+}
+
+pub(crate) fn forwarder_override() -> Option<Box<dyn Forwarder>> {
+    OVERRIDE
+        .lock()
+        .unwrap_or_else(|e| e.into_inner())
+        .clone()
+        .map(|f| Box::new(Scripted(f)) as Box<dyn Forwarder>)
+}
+
+fn auth_view(a: &authentication::Source<'_>) -> (String, String) {
+    match a {
+        authentication::Source::Sni(x) => ("sni".to_string(), x.to_string()),
+        authentication::Source::ProxyBasic(x) => ("basic".to_string(), x.to_string()),
+    }
+}
+
+struct Scripted(Arc<dyn VForwarder>);
+struct ScriptedConnector(Arc<dyn VForwarder>);
+struct ScriptedMuxAuth(Arc<dyn VForwarder>);
+
+#[async_trait]
+impl TcpConnector for ScriptedConnector {
+    async fn connect(
+        self: Box<Self>,
+        _id: log_utils::IdChain<u64>,
+        meta: TcpConnectionMeta,
+    ) -> Result<(Box<dyn pipe::Source>, Box<dyn pipe::Sink>), tunnel::ConnectionError> {
+        let view = VTcpMeta {
+            client_address: meta.client_address,
+            address: match &meta.destination {
+                TcpDestination::Address(a) => Some(*a),
+                _ => None,
+            },
+            host: match &meta.destination {
+                TcpDestination::HostName(h) => Some(h.clone()),
+                _ => None,
+            },
+            auth: meta.auth.as_ref().map(auth_view),
+            tls_domain: meta.tls_domain.clone(),
+            user_agent: meta.user_agent.clone(),
+        };
+        match self.0.tcp_connect(view) {
+            VConnect::Ok(src, snk) => Ok((Box::new(SourceIn(src)), Box::new(SinkIn(snk)))),
+            VConnect::Err(e) => Err(e.into()),
+            VConnect::Never => futures::future::pending().await,
+        }
+    }
+}
+
+#[async_trait]
+impl DatagramMultiplexerAuthenticator for ScriptedMuxAuth {
+    async fn check_auth(
+        self: Box<Self>,
+        client_address: IpAddr,
+        tls_domain: &'_ str,
+        auth: authentication::Source<'_>,
+        _user_agent: Option<&'_ str>,
+    ) -> Result<(), tunnel::ConnectionError> {
+        self.0
+            .check_auth(client_address, tls_domain, auth_view(&auth))
+            .map_err(Into::into)
+    }
+}
+
+struct NoShared;
+
+#[async_trait]
+impl UdpDatagramPipeShared for NoShared {
+    async fn on_new_udp_connection(&self, _: &downstream::UdpDatagramMeta) -> io::Result<()> {
+        Ok(())
+    }
+
+    fn on_connection_closed(&self, _: &forwarder::UdpDatagramMeta) {}
+}
+
+struct SilentSource<T>(std::marker::PhantomData<fn() -> T>);
+struct SwallowSink<T>(std::marker::PhantomData<fn(T)>);
+
+#[async_trait]
+impl<T: Send> datagram_pipe::Source for SilentSource<T> {
+    type Output = T;
+
+    fn id(&self) -> log_utils::IdChain<u64> {
+        log_utils::IdChain::empty()
+    }
+
+    async fn read(&mut self) -> io::Result<T> {
+        futures::future::pending().await
+    }
+}
+
+#[async_trait]
+impl<T: Send> datagram_pipe::Sink for SwallowSink<T> {
+    type Input = T;
+
+    async fn write(&mut self, _: T) -> io::Result<datagram_pipe::SendStatus> {
+        Ok(datagram_pipe::SendStatus::Sent)
+    }
+}
+
+impl Forwarder for Scripted {
+    fn tcp_connector(&self) -> Box<dyn TcpConnector> {
+        Box::new(ScriptedConnector(self.0.clone()))
+    }
+
+    fn datagram_mux_authenticator(&self) -> Box<dyn DatagramMultiplexerAuthenticator> {
+        Box::new(ScriptedMuxAuth(self.0.clone()))
+    }
+
+    fn make_udp_datagram_multiplexer(
+        &self,
+        _id: log_utils::IdChain<u64>,
+        meta: UdpMultiplexerMeta,
+    ) -> io::Result<UdpMultiplexer> {
+        match self.0.udp_mux(meta.client_address) {
+            VMux::Err(e) => Err(e),
+            _ => Ok((
+                Arc::new(NoShared),
+                Box::new(SilentSource::<UdpDatagramReadStatus>(Default::default())),
+                Box::new(SwallowSink::<downstream::UdpDatagram>(Default::default())),
+            )),
+        }
+    }
+
+    fn make_icmp_datagram_multiplexer(
+        &self,
+        _id: log_utils::IdChain<u64>,
+    ) -> io::Result<Option<IcmpMultiplexer>> {
+        match self.0.icmp_mux() {
+            VMux::Err(e) => Err(e),
+            VMux::NotConfigured => Ok(None),
+            VMux::Silent => Ok(Some((
+                Box::new(SilentSource::<forwarder::IcmpDatagram>(Default::default())),
+                Box::new(SwallowSink::<downstream::IcmpDatagram>(Default::default())),
+            ))),
+        }
+    }
+}
+
+/// Serve one client connection on the tunnel channel exactly as `Core::on_new_tls_connection`
+/// does after the TLS handshake: build the codec for `proto` on `io`, then `on_tunnel_request`
+/// (SNI authentication, `Tunnel::listen`). Returns when the tunnel stops.
+pub async fn serve_tunnel<IO>(
+    core: &Core,
+    proto: VProto,
+    io: IO,
+    peer: SocketAddr,
+    server_name: String,
+    sni_auth_creds: Option<String>,
+) -> io::Result<()>
+where
+    IO: 'static + AsyncRead + AsyncWrite + Unpin + Send,
+{
+    let context = core.verif_context();
+    let protocol = match proto {
+        VProto::Http1 => tls_demultiplexer::Protocol::Http1,
+        VProto::Http2 => tls_demultiplexer::Protocol::Http2,
+    };
+    let id = log_utils::IdChain::from(log_utils::IdItem::new(log_utils::CLIENT_ID_FMT, 0));
+    let codec = Core::verif_make_tcp_http_codec(
+        protocol,
+        context.settings.clone(),
+        VIo { inner: io, peer },
+        id.clone(),
+    )?;
+    Core::verif_on_tunnel_request(context, protocol, codec, server_name, sni_auth_creds, id).await;
+    Ok(())
+}
